@@ -12,7 +12,7 @@ class CallMixin:
     # ------------------------------------------------------------------ heap
     def heap_get(self, st: St, attr: str):
         if attr not in st.heap:
-            st.heap[attr] = self.heap0(attr)
+            st.heap[attr] = self.heap0(attr, st.epoch)
         return st.heap[attr]
 
     def attr_sort(self, attr: str, fr: Frame) -> str:
@@ -51,6 +51,19 @@ class CallMixin:
         v = self.voc
         if obj.pt == "pyfunc":
             if obj.py[0] == "name":
+                full = f"{obj.py[1]}.{attr}"
+                if ("ext:" + full) in self.side.attr_sorts:
+                    gt = z3.Const("G_" + full.replace(".", "_"), self.voc.Val)
+                    self.add_global_fact(self.voc.fn("born", self.voc.Val, z3.IntSort())(gt) == 0)
+                    pt_ = self.side.attr_sorts["ext:" + full]
+                    if pt_ in ("list", "tuple", "dict"):
+                        self.add_global_fact(self.voc.ty(gt) == self.voc.cls[pt_])
+                    es = self.side.attr_sorts.get("ext:" + full + "[]")
+                    if es:
+                        f_ = self.elem_type_fact(gt, pt_, es)
+                        if f_ is not None:
+                            self.add_global_fact(f_)
+                    return self.with_sort(gt, pt_)
                 if attr in ("__module__", "__name__", "_name"):
                     # dunder of an external object (typing.Optional._name, Literal.__module__): an opaque string constant
                     return SV(z3.Const(f"G_{obj.py[1]}_{attr}".replace(".", "_"), z3.StringSort()), "str")
@@ -63,6 +76,11 @@ class CallMixin:
             return self.class_attr(obj, attr, st, fr, node)
         if obj.pt == "str" or obj.pt in ("list", "tuple", "set", "frozenset", "dict", "pylist", "pydict"):
             return SV(None, "pyfunc", py=("method", obj, attr))
+        if obj.pt == "tlocal":
+            # attribute of a threading.local(): defined only if this thread has assigned it
+            d = self.tl_defined(obj, attr, st)
+            self.may_raise(st, fr, "AttributeError", d, node, f"threadlocal.{attr}")
+            return self.read_attr(obj, attr, st, fr)
         cls = self.static_class(obj)
         if attr == "__class__":
             return SV(v.clsobj(v.ty(self.box(obj))), "class")
@@ -92,6 +110,15 @@ class CallMixin:
             return self.fresh_sv("undef")
         raise Untranslatable(f"attribute {attr} of {obj.pt}")
 
+    def tl_defined(self, obj: SV, attr: str, st):
+        arr = self.heap_get(st, "$def:" + attr)
+        return self.voc.V2B(z3.Select(arr, self.box(obj)))
+
+    def tl_get(self, obj: SV, attr: str, st, fr, default=None):
+        v = self.voc
+        val = z3.Select(self.heap_get(st, attr), self.box(obj))
+        return SV(z3.If(self.tl_defined(obj, attr, st), val, default if default is not None else v.NONE), "any")
+
     def unique_method_root(self, attr: str):
         """the single most-basic repository class that defines method `attr` (duck-typed call on a value of unknown class)"""
         cache = self.__dict__.setdefault("_umr", {})
@@ -120,8 +147,8 @@ class CallMixin:
     def class_const_value(self, obj: SV, cls: str, attr: str, st, fr, node) -> SV:
         """self.CONST where CONST is class-level: dispatch over the dynamic class when subclasses override it"""
         options = []
-        for sub in self.voc.subclasses_of(cls):
-            cc = self.repo.class_const(sub, attr)
+        for sub in self.voc.subclasses_of(cls.replace(".", "__")):
+            cc = self.repo.class_const(sub.replace("__", "."), attr)
             if cc is not None:
                 options.append((sub, cc))
         distinct = {id(cc[1]) for _s, cc in options}
@@ -138,6 +165,10 @@ class CallMixin:
 
     def eval_const_ast(self, val: ast.AST, owner_cls: str, st, fr) -> SV:
         ci = self.repo.classes[owner_cls]
+        if isinstance(val, ast.Call) and ast.unparse(val.func) == "threading.local":
+            tl = z3.Const(f"TL_{owner_cls.replace('.', '_')}_{val.lineno}", self.voc.Val)
+            self.add_global_fact(self.voc.fn("born", self.voc.Val, z3.IntSort())(tl) == 0)
+            return SV(tl, "tlocal")
         if isinstance(val, ast.Call) and isinstance(val.func, ast.Name) and val.func.id == "template":
             # jinja template objects are opaque: one constant per defining class and source position (text not modelled here)
             self.used_assumptions.add("jinja2 templates are opaque values; Template.render is a deterministic function of template and kwargs (audited by the bounded rendering stand-in)")
@@ -145,7 +176,7 @@ class CallMixin:
         sub = Frame(fr.fi, None, owner_cls, kind=fr.kind)
         sub.fi = type("F", (), {"file": ci.file, "lineno": val.lineno if hasattr(val, "lineno") else 0, "key": ci.qual})()
         self.init_frame(sub)
-        tmp = St(st.guards, st.facts, {}, st.heap)
+        tmp = St(st.guards, st.facts, {}, st.heap, st.eff, st.epoch)
         # names of sibling class constants are visible
         for n, a in ci.consts.items():
             if a is not val and isinstance(a, ast.Constant):
@@ -249,8 +280,20 @@ class CallMixin:
             k = self.box(idx)
             f = v.fn("getitem", v.Val, v.Val, v.Val)
             ok = v.fn("getitem_ok", v.Val, v.Val, z3.BoolSort())
-            self.may_raise(st, fr, "KeyError", ok(obj.t, k), node, "getitem-any")
-            return SV(f(obj.t, k), "any")
+            is_seq = z3.Or(v.isinstance_(obj.t, "list"), v.isinstance_(obj.t, "tuple"))
+            is_dict = v.isinstance_(obj.t, "dict")
+            if idx.pt == "int":
+                n = v.slen(obj.t)
+                pos = z3.If(idx.t < 0, idx.t + n, idx.t)
+                if z3.is_int_value(z3.simplify(idx.t)) and z3.simplify(idx.t).as_long() >= 0:
+                    pos = idx.t
+                defined = z3.If(is_seq, z3.And(idx.t >= -n, idx.t < n), z3.If(is_dict, v.dhas(obj.t, k), ok(obj.t, k)))
+                val = z3.If(is_seq, v.sat(obj.t, pos), z3.If(is_dict, v.dget(obj.t, k), f(obj.t, k)))
+            else:
+                defined = z3.If(is_dict, v.dhas(obj.t, k), ok(obj.t, k))
+                val = z3.If(is_dict, v.dget(obj.t, k), f(obj.t, k))
+            self.may_raise(st, fr, "KeyError", defined, node, "getitem-any")
+            return SV(val, "any")
         raise Untranslatable(f"subscript of {obj.pt}")
 
     def elem_sort(self, container_node, fr):
